@@ -988,6 +988,66 @@ pub fn scale(out_dir: &str, thorough: bool, seed: u64) -> i32 {
             }
         }
     }
+    // ---- cloning a buffer that already has very many owners: 70 000 real handles, then every order of magnitude of the
+    // count simulated through the hook (the count word set to K, one clone taken, the count restored)
+    {
+        let base = LeanString::from("many owners share this text, all of it");
+        let before = shim::begin_call(&[]);
+        crate::gate::take_extra();
+        let mut crowd: Vec<LeanString> = Vec::with_capacity(70_000);
+        for _ in 0..70_000 {
+            crowd.push(crate::gate::mx(|| base.clone()));
+        }
+        let st = shim::end_call(before);
+        let extra = crate::gate::take_extra();
+        let sameptr = crowd.iter().all(|c| c.as_ptr() == base.as_ptr());
+        let eq = crowd.iter().all(|c| c == &base);
+        let rcok = base.__verif_refcount() == Some(70_001);
+        let mut short = crowd.pop().unwrap();
+        short.truncate(20);
+        let c2 = short.clone();
+        let short_ok = c2.as_ptr() == base.as_ptr() && c2 == short;
+        drop(c2);
+        drop(short);
+        drop(crowd);
+        let survives = base.__verif_refcount() == Some(1) && base == "many owners share this text, all of it";
+        recs.push(json!({"k":"bigclone","via":"clone","owner":"crowd-70000","len":base.len(),"truncated":false,"dA":st.d_a + extra,"dR":st.d_r,"sameptr":sameptr && short_ok,"eq":eq,"survives":survives,"rcok":rcok}));
+        for p in 4..62u32 {
+            for d in [-1i64, 0, 1] {
+                let k = ((1u64 << p) as i64 + d) as usize;
+                for via in ["clone", "clone_from", "from_ref", "tls"] {
+                    base.__verif_poke_refcount(k);
+                    let before = shim::begin_call(&[]);
+                    crate::gate::take_extra();
+                    let c = match via {
+                        "clone" => crate::gate::mx(|| base.clone()),
+                        "clone_from" => {
+                            let mut t = LeanString::new();
+                            crate::gate::mx(|| t.clone_from(&base));
+                            t
+                        }
+                        "from_ref" => crate::gate::mx(|| LeanString::from(&base)),
+                        _ => crate::gate::mx(|| base.to_lean_string()),
+                    };
+                    let st = shim::end_call(before);
+                    let extra = crate::gate::take_extra();
+                    let sameptr = c.as_ptr() == base.as_ptr();
+                    let rcok = base.__verif_refcount() == Some(k + 1);
+                    let eq = c == base;
+                    if sameptr {
+                        drop(c);
+                    } else {
+                        // the copy has a buffer of its own: dropping it must not touch the crowded one
+                        drop(c);
+                    }
+                    let back = base.__verif_refcount() == Some(k) || !sameptr;
+                    base.__verif_poke_refcount(1);
+                    recs.push(json!({"k":"bigclone","via":via,"owner":format!("count-2^{p}{d:+}"),"len":base.len(),"truncated":false,"dA":st.d_a + extra,"dR":st.d_r,"sameptr":sameptr,"eq":eq,"survives":back,"rcok":rcok}));
+                }
+            }
+        }
+        drop(base);
+    }
     // ---- single calls on long strings, compared with String
     let nops = if thorough { 4000 } else { 800 };
     let mut s = LeanString::from("0123456789".repeat(3000).as_str());
